@@ -150,8 +150,33 @@ func datetimeProbes() []string {
 }
 
 func uuidProbes() []string {
-	return []string{`"550e8400-e29b-41d4-a716-446655440000"`, `"550E8400-E29B-41D4-A716-446655440000"`, `"550e8400-e29b-41d4-a716-44665544000"`, `"550e8400-e29b-41d4-a716-4466554400000"`,
-		`"550e8400-e29b-41d4-a716-44665544000g"`, `"550e8400e-29b-41d4-a716-446655440000"`, `"550e8400-e29b-41d4-a716_446655440000"`, `"00000000-0000-0000-0000-000000000000"`, `"g50e8400-e29b-41d4-a716-446655440000"`, `""`, `"550e8400-e29b-41d4-a716"`}
+	const u = "550e8400-e29b-41d4-a716-446655440000"
+	out := []string{u, strings.ToUpper(u), "00000000-0000-0000-0000-000000000000", "", "x", u[:23],
+		"{" + u + "}", "urn:uuid:" + u, strings.ReplaceAll(u, "-", ""), "URN:UUID:" + u, "urn:uuix:" + u, "urn:uuid:" + u + "0", "(" + u + ")", "{" + u + ")", "[" + u + "]"}
+	// every single-character insertion, deletion and substitution of the canonical
+	// form and of its braced form by a small alphabet
+	for _, base := range []string{u, "{" + u + "}", "urn:uuid:" + u} {
+		for i := 0; i <= len(base); i++ {
+			if i < len(base) {
+				out = append(out, base[:i]+base[i+1:])
+			}
+			for _, c := range []string{"{", "}", "x", "-", "0", "G", " "} {
+				out = append(out, base[:i]+c+base[i:])
+				if i < len(base) {
+					out = append(out, base[:i]+c+base[i+1:])
+				}
+			}
+		}
+	}
+	seen := map[string]bool{}
+	var q []string
+	for _, s := range out {
+		if !seen[s] {
+			seen[s] = true
+			q = append(q, gen.QuoteJSON(s))
+		}
+	}
+	return q
 }
 
 // curated (value, expected) lists for email and uri
